@@ -16,12 +16,20 @@ from pycoin.coins.bitcoin.SolutionChecker import BitcoinSolutionChecker
 MANIFEST = {
     "text": "Lean theorems over the model of _signature_hash / delete_subscript / _delete_signature / the BIP143 functions of SegwitChecker and the "
             "Bcash, Bgold and Groestlcoin overrides: the bytes the model digests equal the independently written consensus serialisation "
-            "(Core's CTransactionSignatureSerializer, BIP143, fork-id variants) for every in-range transaction, input index, script code with complete "
-            "pushes and 32-bit hash-type word; signature removal equals Core's FindAndDelete; purity. Constants, masks, format strings and per-class "
-            "behaviour are regenerated from the source; the model is tied to the code by differential correspondence on the five Tx classes, and the "
-            "implementation is compared with an independent struct/hashlib re-statement of the consensus algorithms on all 256 hash types.",
-    "note": "SHA-256 is a function symbol in the theorems (digests equal by congruence). Script codes ending in a truncated push are excluded by "
-            "hypothesis (known finding: pycoin's instruction walker resynchronises inside the truncated push).",
+            "(Core's CTransactionSignatureSerializer, BIP143, fork-id variants) for every in-range transaction, input index, 32-bit hash-type word and "
+            "every script code of which Core writes the whole undecodable rest (all scripts with complete pushes); signature removal equals Core's "
+            "FindAndDelete for EVERY script and preserves completeness (so the CHECKSIG/CHECKMULTISIG closure theorem has no hypothesis about the "
+            "script FindAndDelete leaves); OP_CODESEPARATOR stripping is characterised for EVERY script (same announced length, Core's bytes a prefix, "
+            "equal iff Core writes the whole rest); every coin class is covered by name (BTC = LTC algorithm, GRS single SHA-256 for legacy, BIP143 "
+            "and its part hashes, BCH/BTG = BIP143 with the fork id folded in and refusal without the fork-id bit, Tx.hash(hash_type) with the "
+            "appended 4-byte hash type, the SIGHASH_SINGLE out-of-range constant / zero hashOutputs under each); purity. Constants, masks, format "
+            "strings and per-class behaviour are regenerated from the source; the model is tied to the code by differential correspondence on the "
+            "five Tx classes, and the implementation is compared with an independent struct/hashlib re-statement of the consensus algorithms on all "
+            "256 hash types.",
+    "note": "SHA-256 is a function symbol in the theorems (digests equal by congruence). Residual known finding truncated-push-short-write: for a "
+            "legacy script code whose cut-short last push leaves bytes behind the point where GetScriptOp gave up, Core's SerializeScriptCode announces "
+            "the full length but writes fewer bytes; pycoin (after the fix that made delete_subscript/_delete_signature stop at the truncated push) "
+            "serialises the whole rest. Such a script can never validate; reproducing the short write would mean bypassing Tx serialisation.",
     "technique": "Lean 4 proof (model = independent spec, prefix-free serialisation) + differential correspondence + reference oracle on the implementation",
 }
 RULE = ("ops c04_sighash / c04_sighash_segwit / c04_sighash_f (+ _spec twins), c04_tmp_tx, c04_preimage_*, c04_delete_subscript, c04_find_and_delete, "
@@ -277,7 +285,14 @@ def oracle(op: str, out: str):
             # OP_CODESEPARATOR stripping = what SerializeScriptCode writes after the length
             want = S.serialize_script_code(script)
             body = parse_bytes(out[3:]) if out.startswith("ok") else None
-            if body is None or txlib.compact_size(len(body)) + body != want:
+            if body is None:
+                return "OP_CODESEPARATOR stripping differs from SerializeScriptCode"
+            # what consensus fixes for every script: the announced length, and the bytes written are a prefix of the stripped script
+            # that lacks exactly the part of the undecodable rest GetScriptOp did not move over
+            cut = short_write(script)
+            if txlib.compact_size(len(body)) + body[:len(body) - cut] != want or (cut and body[len(body) - cut:] != script[len(script) - cut:]):
+                return "OP_CODESEPARATOR stripping differs from SerializeScriptCode beyond the unwritten rest of a truncated push"
+            if cut:
                 return "OP_CODESEPARATOR stripping differs from SerializeScriptCode"
     if k == "c04_checksol" and out.startswith("ok"):
         coin, f, us, idx = a[1], parse_fields(a[2]), parse_us(a[3]), int(a[4])
@@ -328,22 +343,38 @@ def neighbours(op, rng):
             yield " ".join(a[:8] + [str(ht)])
 
 
-def _known_truncated(v):
+def short_write(script: bytes) -> int:
+    """how many bytes of the undecodable rest of `script` Core's SerializeScriptCode announces but does not write (0 for
+    scripts with complete pushes, and when the failed GetScriptOp left its iterator at the end)"""
+    pc = 0
+    while True:
+        ok, _op, new_pc = S.get_script_op(script, pc)
+        if not ok:
+            return len(script) - new_pc
+        pc = new_pc
+
+
+LEGACY_COINS = ("btc", "ltc", "grs")
+
+
+def _known_short_write(v):
+    """legacy digest / OP_CODESEPARATOR stripping of a script code with a truncated push Core short-writes; nothing else"""
     op = str(v.get("input", ""))
+    what = str(v.get("what", ""))
     a = op.split(" ")
     try:
-        if a[0] in ("c04_sighash", "c04_sighash_segwit"):
-            return not S.is_complete(parse_bytes(a[5]))
-        if a[0] == "c04_sighash_f":
-            return not S.is_complete(parse_bytes(a[6]))
-        if a[0] in ("c04_delete_subscript", "c04_find_and_delete"):
-            return not S.is_complete(parse_bytes(a[1]))
+        if a[0] == "c04_sighash" and a[1] in LEGACY_COINS and what.startswith("signature hash differs"):
+            return short_write(parse_bytes(a[5])) > 0
+        if a[0] == "c04_sighash_f" and a[2] == "legacy" and a[1] in LEGACY_COINS and what.startswith("the message handed to signature verification differs"):
+            return short_write(parse_bytes(a[6])) > 0
+        if a[0] == "c04_delete_subscript" and a[2] == "ab" and what == "OP_CODESEPARATOR stripping differs from SerializeScriptCode":
+            return short_write(parse_bytes(a[1])) > 0
     except Exception:  # noqa: BLE001
         return False
     return False
 
 
-KNOWN = {"truncated-push-script-code": _known_truncated}
+KNOWN = {"truncated-push-short-write": _known_short_write}
 
 
 # ---------------------------------------------------------------- generators
@@ -490,6 +521,18 @@ def gen(ctx, emit):
     for sc in truncated:
         emit("c04_find_and_delete %s %s" % (hx(sc + S.push_data(SIG)), show_sigs([SIG])))
         emit("c04_find_and_delete_spec %s %s" % (hx(sc + S.push_data(SIG)), show_sigs([SIG])))
+    # a signature push (and an OP_CODESEPARATOR) lying inside the undecodable rest, at every offset a resynchronising walker could land on
+    for s in (SIG, b"\x30", b""):
+        p = S.push_data(s)
+        for head in (b"\x4b", b"\x4b\x00", b"\x4c", b"\x4c\xff", b"\x4c\xff\x00", b"\x4d\xff", b"\x4d\xff\xff", b"\x4d\xff\xff\x00", b"\x4e\xff\xff\xff",
+                     b"\x4e\xff\xff\xff\x7f", b"\x4e\xff\xff\xff\x7f\x00"):
+            script = p + b"\x51" + head + p + b"\xab" + p
+            emit("c04_find_and_delete %s %s" % (hx(script), show_sigs([s])))
+            emit("c04_find_and_delete_spec %s %s" % (hx(script), show_sigs([s])))
+            emit("c04_delete_subscript %s ab" % hx(script))
+            emit("c04_script_code_spec %s" % hx(script))
+            for coin in ("btc", "grs"):
+                e_f(coin, "legacy", f0, us0, 1, script, [s], 1, spec=True)
     # ---- preimages, field by field
     for coin in COINS:
         for ht in (1, 2, 3, 0x81, 0x82, 0x83, 0x41, 0xC3, 0x1F, 0x20):
